@@ -82,7 +82,8 @@ def gen_module(rng, helper_name):
         if deco:
             out.append(pad + '@' + deco)
         is_async = deco is None and rng.random() < 0.2
-        name = ('f\xe5%d' if k % 6 == 1 else 'f%d') % k       # some identifiers hold a non-ASCII letter
+        # some identifiers hold a non-ASCII letter; some are not written in NFKC form (the ligature U+FB01: `def \ufb01x3` defines fix3)
+        name = ('f\xe5%d' if k % 6 == 1 else '\ufb01x%d' if k % 6 == 4 else 'f%d') % k
         scope = 'class' if in_class else 'module'
         if deco in (None, 'local_deco', 'logged') and defined[scope] and rng.random() < 0.15:
             # a redefinition of an earlier function of the same scope (conditional redefinition, overload stubs
@@ -90,7 +91,9 @@ def gen_module(rng, helper_name):
             name = rng.choice(defined[scope])
         elif deco in (None, 'local_deco', 'logged'):
             defined[scope].append(name)
-        out.append(pad + ('async def ' if is_async else 'def ') + name + '(*args):')
+        # some definitions use the type-parameter syntax (def name[T](...)), also below decorators and with blanks around the brackets
+        generic = rng.choice(['', '', '', '[T]', '[T: int, *Ts]', ' [T]', '[K, V] '])
+        out.append(pad + ('async def ' if is_async else 'def ') + name + generic + '(*args):')
         out += doc(rng, k, indent + 4)
         if deco == 'contextlib.contextmanager':
             out.append(pad + '    yield')
